@@ -281,6 +281,19 @@ def run_property(pid, tier, seed, repo, root, t0):
         "exhaustive": False,
     }
     level = cfg["level"]
+    if level == "exploration":
+        # bounded-only property: the counts that matter are the cases the stand-ins executed on the real code
+        # (reported by the stand-in itself: enumerated histories / programs / rule sets, no repetition)
+        ws = [o.get("witness") or {} for o in obligations if o["name"].startswith("standin:")]
+        ncases = sum(int(w.get("cases") or 0) for w in ws)
+        cov["evaluations"] = ncases
+        cov["distinct_nontrivial"] = ncases
+        cov["rule"] = ("BOUNDED-ONLY property: one case = one enumerated input of the stand-in (a history, program, rule set; the "
+                       "enumeration has no repetition, so cases are distinct), counted by the stand-in itself while it runs; a case is "
+                       "non-trivial because the real code is executed on it and every observation is compared with the contract's "
+                       "value. Nothing is proved: obligations = discharged = 0.")
+        cov["samples"] = [{"standin": o["name"], "status": o["status"], "bound": o.get("bound"), "cases_run": (o.get("witness") or {}).get("cases"),
+                           "result": (o.get("witness") or {}).get("detail"), "known_finding": o.get("known_finding")} for o in obligations] or samples
     ev = {"property_id": pid, "tier": tier, "seed": seed, "level": level, "coverage": cov,
           "assumptions": cfg.get("assumptions", []), "wall_s": round(wall, 2), "violations": len(violations)}
     _write(os.path.join(root, "evidence", pid + ".json"), ev)
